@@ -254,7 +254,7 @@ func (e *Engine) emit(st *State, ev *Event) *Event {
 	st.seq++
 	ev.Seq = st.seq
 	ev.Frame = st.frame
-	if n := len(st.loops); n > 0 {
+	if n := len(st.loops); n > 0 && ev.Loop == nil {
 		ev.Loop = st.loops[n-1]
 	}
 	if e.Policy.Role != nil && ev.Role == "" {
@@ -670,7 +670,7 @@ func (e *Engine) havoc(st *State, objs map[types.Object]bool, pos token.Pos) {
 
 // loopIter runs the body zero times and once (twice with LoopTwice); the caller supplies per-iteration setup.
 func (e *Engine) loopIter(st *State, loop ast.Stmt, body *ast.BlockStmt, cond ast.Expr, post ast.Stmt,
-	iterSetup func(*State) []*State, iterStep func(*State), lbl string) []*State {
+	iterSetup func(*State) []*State, iterStep func(*State), lbl string, src *Val) []*State {
 	assigned := e.assignedIn(loop)
 	maxIter := 1
 	if e.Policy.LoopTwice {
@@ -706,6 +706,9 @@ func (e *Engine) loopIter(st *State, loop ast.Stmt, body *ast.BlockStmt, cond as
 					if iterStep != nil {
 						iterStep(c.st)
 					}
+					if it == 0 && !c.b {
+						e.emit(c.st, &Event{Kind: EvLoopZero, Pos: loop.Pos(), Note: lbl, Loop: loop, Recv: src})
+					}
 					out = append(out, c.st)
 					continue
 				}
@@ -714,7 +717,7 @@ func (e *Engine) loopIter(st *State, loop ast.Stmt, body *ast.BlockStmt, cond as
 				}
 				e.trace(c.st, loop.Pos(), fmt.Sprintf("%s iteration %d", lbl, it+1))
 				c.st.loops = append(c.st.loops, loop)
-				e.emit(c.st, &Event{Kind: EvLoopBegin, Pos: loop.Pos(), Note: lbl})
+				e.emit(c.st, &Event{Kind: EvLoopBegin, Pos: loop.Pos(), Note: lbl, Recv: src})
 				bodies := []*State{c.st}
 				if iterSetup != nil {
 					bodies = iterSetup(c.st)
@@ -767,7 +770,7 @@ func (e *Engine) execFor(st *State, s *ast.ForStmt) []*State {
 	}
 	var out []*State
 	for _, st := range sts {
-		out = append(out, e.loopIter(st, s, s.Body, s.Cond, s.Post, nil, nil, "for")...)
+		out = append(out, e.loopIter(st, s, s.Body, s.Cond, s.Post, nil, nil, "for", nil)...)
 	}
 	return out
 }
@@ -825,7 +828,7 @@ func (e *Engine) execRange(st *State, s *ast.RangeStmt) []*State {
 			}
 			return sts
 		}
-		out = append(out, e.loopIter(x.st, s, s.Body, nil, nil, setup, step, "range")...)
+		out = append(out, e.loopIter(x.st, s, s.Body, nil, nil, setup, step, "range", xv)...)
 	}
 	return out
 }
